@@ -1,6 +1,7 @@
 //! `srv` — property-based verification harness for getong/stateright (see /verif/DESIGN.md).
 pub mod engine;
 pub mod graph;
+pub mod hist;
 pub mod props;
 pub mod refsys;
 pub mod runner;
